@@ -5,6 +5,7 @@ A *network* in a case is JSON: {"jds": [[..]..], "edges": [[a, b, t, m] ..], "na
 (vertices 0..N-1, t = index into names, m = motif id).  The implementation side rebuilds a
 gcmpy Network from it (nodes first, then the edges in the listed order) so G.edges() order is
 reproducible; the order the real code then sees is logged and handed to the model."""
+import contextlib
 import itertools
 import sys
 from fractions import Fraction
@@ -114,14 +115,28 @@ def make_network(net):
     from gcmpy.names.network_names import NetworkNames
     N = Network()
     G = N.G
+    G.graph["name"] = "case-network"
     for i, jd in enumerate(net["jds"]):
         G.add_node(i, **{})
         G.nodes[i][NetworkNames.JOINT_DEGREE] = tuple(jd)
-    for a, b, t, m in net["edges"]:
+        G.nodes[i]["label"] = f"v{i}"          # data the code must leave alone
+    for k, (a, b, t, m) in enumerate(net["edges"]):
         G.add_edge(a, b)
         G.edges[a, b][NetworkNames.TOPOLOGY] = net["names"][t]
         G.edges[a, b][NetworkNames.MOTIF_IDS] = m
+        G.edges[a, b]["w"] = 100 + k
     return N
+
+
+def deep_snapshot(G):
+    """everything a caller can see of its own graph: graph attributes, nodes and edges with ALL attribute
+    data in iteration order, adjacency order"""
+    def items(d):
+        return sorted((repr(k), repr(v)) for k, v in d.items())
+    return [items(G.graph),
+            [[repr(n), items(d)] for n, d in G.nodes(data=True)],
+            [[repr(a), repr(b), items(d)] for a, b, d in G.edges(data=True)],
+            [[repr(n), [repr(x) for x in G.adj[n]]] for n in G.nodes()]]
 
 
 # ------------------------------------------------------------------ targets
@@ -245,17 +260,30 @@ class Recorder:
         self.states = []   # [graph edges canonical, draw-set list, draw-set dict consistent?]
         self.frames = []   # (top, bottom) seen by random.random()
 
-    # random entry points
+    # random entry points.  Index draws are primitive-agnostic: choice / randrange / randint all take the
+    # next answer of the index stream (mod n); which member was drawn is logged by the DrawSet.draw wrapper
+    # from the RESULT, so `random.choice(seq)` and `seq[random.randrange(len(seq))]` are the same to the check
+    def index(self, n, seq=None):
+        if self.ci >= len(self.choices):
+            raise oracles.OracleProtocol("index script exhausted")
+        i = self.choices[self.ci] % n
+        self.ci += 1
+        return i
+
     def choice(self, seq):
         if len(seq) == 0:
             raise IndexError("Cannot choose from an empty sequence")
-        if self.ci >= len(self.choices):
-            raise oracles.OracleProtocol("choice script exhausted")
-        self.snapshot_if_needed()
-        i = self.choices[self.ci] % len(seq)
-        self.ci += 1
-        self.events.append([0, i])
-        return seq[i]
+        return seq[self.index(len(seq), seq)]
+
+    def randrange(self, a, b=None, step=1):
+        if b is None:
+            a, b = 0, a
+        if b <= a:
+            raise ValueError("empty range for randrange()")
+        return a + self.index(b - a)
+
+    def randint(self, a, b):
+        return self.randrange(a, b + 1)
 
     def random(self):
         if self.ri >= len(self.randoms):
@@ -269,9 +297,6 @@ class Recorder:
 
     def shuffle(self, x):
         raise oracles.OracleProtocol("unexpected shuffle")
-
-    def randrange(self, *a):
-        raise oracles.OracleProtocol("unexpected randrange")
 
     def choices(self, *a, **k):
         raise oracles.OracleProtocol("unexpected choices")
@@ -332,29 +357,27 @@ class Adaptive(Recorder):
         except Exception:  # noqa: BLE001
             return False
 
-    def choice(self, seq):
-        if len(seq) == 0:
-            raise IndexError("Cannot choose from an empty sequence")
+    def index(self, n, seq=None):
         if self.budget <= 0:
-            raise oracles.OracleProtocol("choice budget exhausted")
+            raise oracles.OracleProtocol("index budget exhausted")
         self.budget -= 1
-        outer = self.e0 is None or self.G is None or self.is_outer_draw()
-        i = self.rng.randrange(len(seq))
-        if not outer and self.rng.random() < 0.75:
-            cands = [j for j, e in enumerate(seq) if self.promising(self.e0, e)]
-            if cands:
-                i = self.rng.choice(cands)
-        elif outer and self.G is not None and len(seq) <= 80 and self.rng.random() < 0.7:
-            cands = [j for j, e in enumerate(seq) if any(self.promising(e, f) for f in seq)]
-            if cands:
-                i = self.rng.choice(cands)
-        if outer:
-            self.e0 = seq[i]
+        i = self.rng.randrange(n)
+        if seq is not None:
+            outer = self.e0 is None or self.G is None or self.is_outer_draw()
+            if not outer and self.rng.random() < 0.75:
+                cands = [j for j, e in enumerate(seq) if self.promising(self.e0, e)]
+                if cands:
+                    i = self.rng.choice(cands)
+            elif outer and self.G is not None and len(seq) <= 80 and self.rng.random() < 0.7:
+                cands = [j for j, e in enumerate(seq) if any(self.promising(e, f) for f in seq)]
+                if cands:
+                    i = self.rng.choice(cands)
+            if outer:
+                self.e0 = seq[i]
         self.prev_random = False
         self.choices.append(i)
         self.ci += 1
-        self.events.append([0, i])
-        return seq[i]
+        return i
 
     def random(self):
         self.prev_random = True
@@ -364,7 +387,7 @@ class Adaptive(Recorder):
         """is this draw the `e0 = EdgeSet.draw()` of rewire()? (read from the calling source line)"""
         import linecache
         fr = sys._getframe(2)
-        for _ in range(6):
+        for _ in range(8):
             if fr is None:
                 break
             if fr.f_code.co_name == "rewire":
@@ -373,34 +396,34 @@ class Adaptive(Recorder):
         return self.prev_random
 
 
-def run_rewire(net, tg, slimit, climit, choices, randoms, every_draw=True, adaptive=None):
-    """returns the observation of one scripted rewire() run on the real code"""
-    import gcmpy.tools.draw_set as ds_mod
-    from gcmpy.names.tools_names import ToolsNames
-    from gcmpy.tools.markov_chain_monte_carlo_rewiring import MarkovChainMonteCarloRewiring
-    N = make_network(net)
-    before = canon_graph(N.G, net["names"])
-    params = {ToolsNames.NETWORK: N, ToolsNames.EJKS: impl_target(net, tg)}
-    if slimit is not None:
-        params[ToolsNames.SEARCH_LIMIT] = slimit
-    if climit is not None:
-        params[ToolsNames.CONVERGENCE_LIMIT] = climit
-    mc = MarkovChainMonteCarloRewiring(params)
-    limits = [mc._search_limit, mc._convergence_limit]
-    if not all(isinstance(x, int) for x in limits):
-        limits = [-1, -1]
-    votes = []
-    rec = Adaptive(adaptive, len(choices), randoms, net["names"]) if adaptive is not None else \
-        Recorder(choices, randoms, net["names"], every_draw)
+@contextlib.contextmanager
+def patched_random(rec):
+    """route every `random` entry point gcmpy could use to the recorder"""
+    import random as _random
+    names = ["shuffle", "choice", "randrange", "randint", "random", "choices"]
+    saved = {n: getattr(_random, n) for n in names}
+    for n in names:
+        setattr(_random, n, getattr(rec, n))
+    try:
+        yield rec
+    finally:
+        for n in names:
+            setattr(_random, n, saved[n])
 
+
+def _one_call(mc, N, names, rec, votes):
+    """one instrumented rewire() call on an existing object; returns the observation of this call"""
+    import gcmpy.tools.draw_set as ds_mod
+    before = canon_graph(N.G, names)
+    deep_before = deep_snapshot(N.G)
+    start_order = [[min(a, b), max(a, b)] for a, b in N.G.edges()]
     orig_gae = mc.get_all_edges
     orig_sc = mc.swap_condition
 
     def gae(G, u0, edge):
         if rec.G is None:
             rec.G = G
-            rec.last = canon_graph(G, net["names"])
-            rec.initial = rec.last
+            rec.last = canon_graph(G, names)
         r = orig_gae(G, u0, edge)
         rec.events.append([1, [e[1] if e[0] == u0 else e[0] for e in r]])
         return r
@@ -424,16 +447,23 @@ def run_rewire(net, tg, slimit, climit, choices, randoms, every_draw=True, adapt
         if rec.ds is None:
             rec.ds = self
             first_order.extend(list(e) for e in self._edges)
-        return orig_draw(self)
+        rec.snapshot_if_needed()
+        e = orig_draw(self)
+        i = self._edge_hashmap.get(e) if isinstance(self._edge_hashmap, dict) else None
+        if not (isinstance(i, int) and 0 <= i < len(self._edges) and self._edges[i] == e):
+            i = self._edges.index(e) if e in self._edges else -1
+        rec.events.append([0, i])
+        return e
 
     ds_mod.DrawSet.draw = draw
     status = [0]
     final = None
+    Gout = None
     try:
-        with oracles.scripted(rec):
+        with patched_random(rec):
             try:
                 Gout = mc.rewire()
-                final = canon_graph(Gout, net["names"])
+                final = canon_graph(Gout, names)
                 same_object = Gout is N.G
                 if rec.G is None:
                     rec.G = Gout
@@ -454,11 +484,53 @@ def run_rewire(net, tg, slimit, climit, choices, randoms, every_draw=True, adapt
                 status = [2, type(e).__name__]
     finally:
         ds_mod.DrawSet.draw = orig_draw
-    after = canon_graph(N.G, net["names"])
-    return {"status": status, "limits": limits, "events": rec.events, "order": first_order,
-            "states": rec.states, "final": final, "before": before, "after": after,
-            "frames": [[_fq(a), _fq(b)] for a, b in rec.frames], "choices_used": list(rec.choices)[:rec.ci],
-            "variant": variant_of(votes)}
+        try:
+            del mc.get_all_edges
+            del mc.swap_condition
+        except AttributeError:
+            pass
+    after = canon_graph(N.G, names)
+    obs = {"status": status, "events": rec.events, "order": first_order or start_order,
+           "states": rec.states, "final": final, "before": before, "after": after,
+           "deep_unchanged": deep_snapshot(N.G) == deep_before,
+           "frames": [[_fq(a), _fq(b)] for a, b in rec.frames], "choices_used": list(rec.choices)[:rec.ci]}
+    return obs, Gout
+
+
+def run_rewire(net, tg, slimit, climit, choices, randoms, every_draw=True, adaptive=None, second=None):
+    """the observation of a scripted rewire() run on the real code.  second = {"choices", "randoms", "relink"}:
+    rewire() is called a SECOND time on the same object (after the caller, if relink, made the returned
+    graph the object's network) and observed the same way under obs["second"]."""
+    from gcmpy.names.tools_names import ToolsNames
+    from gcmpy.tools.markov_chain_monte_carlo_rewiring import MarkovChainMonteCarloRewiring
+    names = net["names"]
+    N = make_network(net)
+    params = {ToolsNames.NETWORK: N, ToolsNames.EJKS: impl_target(net, tg)}
+    if slimit is not None:
+        params[ToolsNames.SEARCH_LIMIT] = slimit
+    if climit is not None:
+        params[ToolsNames.CONVERGENCE_LIMIT] = climit
+    mc = MarkovChainMonteCarloRewiring(params)
+    limits = [mc._search_limit, mc._convergence_limit]
+    if not all(isinstance(x, int) for x in limits):
+        limits = [-1, -1]
+    votes = []
+    rec = Adaptive(adaptive, len(choices), randoms, names) if adaptive is not None else \
+        Recorder(choices, randoms, names, every_draw)
+    obs, Gout = _one_call(mc, N, names, rec, votes)
+    obs["limits"] = limits
+    if second is not None and obs["status"][0] in (0, 1, 3):
+        if second.get("relink") and Gout is not None:
+            N.G = Gout            # the caller adopts the rewired graph and rewires again
+        rec2 = Recorder(second["choices"], second["randoms"], names, every_draw)
+        obs2, _ = _one_call(mc, N, names, rec2, votes)
+        obs2["limits"] = [mc._search_limit, mc._convergence_limit]
+        obs2["input"] = obs2["before"]
+        obs["second"] = obs2
+    obs["variant"] = variant_of(votes)
+    if "second" in obs:
+        obs["second"]["variant"] = obs["variant"]
+    return obs
 
 
 def id_variant(G, e0s, e1s, u0, v0, proposals):
@@ -596,7 +668,7 @@ def obs_variant(obs):
 def impl(case):
     if case["kind"] == "run":
         return run_rewire(case["net"], case["tg"], case["slimit"], case["climit"], case["choices"],
-                          case["randoms"], every_draw=case.get("every_draw", True))
+                          case["randoms"], every_draw=case.get("every_draw", True), second=case.get("second"))
     return run_methods(case["net"], case["tg"], case["queries"])
 
 
@@ -617,8 +689,17 @@ def model_calls(case, obs, run_entry="c11_run"):
         es = net_in_order(net, order)
         if es is None:
             es = [[min(a, b), max(a, b), t, m] for a, b, t, m in net["edges"]]
-        return [(run_entry, [net["jds"], es, wire_target(case["tg"]), _opt(case["slimit"]), _opt(case["climit"]),
-                             events, obs_variant(obs) or 0])]
+        calls = [(run_entry, [net["jds"], es, wire_target(case["tg"]), _opt(case["slimit"]), _opt(case["climit"]),
+                              events, obs_variant(obs) or 0])]
+        if not is_exc(obs) and "second" in obs:
+            o2 = obs["second"]
+            byp = {(e[0], e[1]): e for e in o2["input"][1]}
+            es2 = [byp[(min(a, b), max(a, b))] for a, b in o2["order"] if (min(a, b), max(a, b)) in byp]
+            if len(es2) != len(o2["input"][1]):
+                es2 = o2["input"][1]
+            calls.append((run_entry, [net["jds"], es2, wire_target(case["tg"]), _opt(case["slimit"]),
+                                      _opt(case["climit"]), o2["events"], obs_variant(obs) or 0]))
+        return calls
     if is_exc(obs):
         return []
     g0 = canon_net(net)
@@ -637,10 +718,15 @@ def model_obs(case, raws):
     if case["kind"] == "run":
         if not raws:
             return None
-        st, fin, states, limits = raws[0]
-        status = [st[0]] if st[0] != 2 else [2, EXC_CODES.get(st[1], str(st[1]))]
-        return {"status": status, "limits": limits, "final": sorted(fin[0]),
-                "states": [[sorted(s[0]), s[1]] for s in states]}
+        def dec(raw):
+            st, fin, states, limits = raw
+            status = [st[0]] if st[0] != 2 else [2, EXC_CODES.get(st[1], str(st[1]))]
+            return {"status": status, "limits": limits, "final": sorted(fin[0]),
+                    "states": [[sorted(s[0]), s[1]] for s in states]}
+        m = dec(raws[0])
+        if len(raws) > 1:
+            m["second"] = dec(raws[1])
+        return m
     if not raws:
         return None
     return {"methods": raws[0], "corners": raws[1]}
@@ -654,30 +740,12 @@ def compare(case, obs, mobs):
             return f"implementation raised {obs[1]} (model: status {mobs['status']}, limits {mobs['limits']})"
         if obs.get("variant") is None:
             return "motif ids of the proposal edges follow neither the crossed nor the repaired rule"
-        n = len(case["net"]["jds"])
-        ist = obs["status"]
-        if ist == [3]:
-            ist = [0]
-        if ist != mobs["status"]:
-            return f"status: impl {obs['status']} model {mobs['status']}"
-        if obs["limits"] != mobs["limits"]:
-            return f"limits [search, convergence]: impl {obs['limits']} model {mobs['limits']}"
-        if len(obs["states"]) != len(mobs["states"]):
-            return f"number of graph changes: impl {len(obs['states'])} model (accepted swaps) {len(mobs['states'])}"
-        for i, ((g, dsl), (mes, mds)) in enumerate(zip(obs["states"], mobs["states"])):
-            if g[1] != mes:
-                d1 = [e for e in g[1] if e not in mes]
-                d2 = [e for e in mes if e not in g[1]]
-                return f"graph after change {i}: impl-only edges {d1[:6]} model-only edges {d2[:6]}"
-            if g[0] != [list(j) for j in case["net"]["jds"]]:
-                return f"graph after change {i}: node annotations differ"
-            if dsl is not None and [enc_key(n, a, b) for a, b in dsl] != mds:
-                return f"draw set after change {i}: impl {dsl[:8]}.. model {mds[:8]}.."
-        if obs["final"] is not None and obs["final"][1] != mobs["final"]:
-            return "returned graph differs from the model's final graph"
-        if obs["before"] != obs["after"]:
-            return "the input network object was modified by rewire()"
-        return None
+        d = _compare_one(case, obs, mobs, "")
+        if d is None and "second" in obs:
+            if "second" not in mobs:
+                return "second rewire() call: no model answer"
+            d = _compare_one(case, obs["second"], mobs["second"], "second rewire() call on the same object: ")
+        return d
     # methods
     if is_exc(obs):
         return f"implementation raised {obs[1]}"
@@ -728,6 +796,33 @@ def compare(case, obs, mobs):
     return None
 
 
+def _compare_one(case, obs, mobs, tag):
+    n = len(case["net"]["jds"])
+    ist = obs["status"]
+    if ist == [3]:
+        ist = [0]
+    if ist != mobs["status"]:
+        return f"{tag}status: impl {obs['status']} model {mobs['status']}"
+    if obs["limits"] != mobs["limits"]:
+        return f"{tag}limits [search, convergence]: impl {obs['limits']} model {mobs['limits']}"
+    if len(obs["states"]) != len(mobs["states"]):
+        return f"{tag}number of graph changes: impl {len(obs['states'])} model (accepted swaps) {len(mobs['states'])}"
+    for i, ((g, dsl), (mes, mds)) in enumerate(zip(obs["states"], mobs["states"])):
+        if g[1] != mes:
+            d1 = [e for e in g[1] if e not in mes]
+            d2 = [e for e in mes if e not in g[1]]
+            return f"{tag}graph after change {i}: impl-only edges {d1[:6]} model-only edges {d2[:6]}"
+        if g[0] != [list(j) for j in case["net"]["jds"]]:
+            return f"{tag}graph after change {i}: node annotations differ"
+        if dsl is not None and [enc_key(n, a, b) for a, b in dsl] != mds:
+            return f"{tag}draw set after change {i}: impl {dsl[:8]}.. model {mds[:8]}.."
+    if obs["final"] is not None and obs["final"][1] != mobs["final"]:
+        return f"{tag}returned graph differs from the model's final graph"
+    if obs["before"] != obs["after"] or not obs.get("deep_unchanged", True):
+        return f"{tag}the input network object was modified by rewire() (attribute data / iteration order included)"
+    return None
+
+
 def accepted_items(case, obs):
     """(query, item) of the method-level queries the implementation found suitable AND accepted"""
     out = []
@@ -742,6 +837,10 @@ def accepted_items(case, obs):
 def swap_tree(case, q, it):
     g0 = canon_net(case["net"])
     return [g0[0], g0[1], q[0], q[2], it["c0"], it["c1"], [p[:4] for p in it["props"]]]
+
+
+def second_obs(obs):
+    return None if is_exc(obs) else obs.get("second")
 
 
 def run_graphs(obs):
@@ -784,8 +883,13 @@ def gen_run(rng, drop, zero, big=False):
     ch, ra = rand_scripts(rng, rng.choice([40, 150, 400]) * (3 if big else 1), rng.choice([3, 20, 60]))
     if rng.random() < 0.8:
         ch = adaptive_choices(rng, net, tg, sl, cl, ch, ra)
-    return {"kind": "run", "net": net, "tg": tg, "slimit": sl, "climit": cl, "choices": ch, "randoms": ra,
+    case = {"kind": "run", "net": net, "tg": tg, "slimit": sl, "climit": cl, "choices": ch, "randoms": ra,
             "valid": True, "every_draw": True, "model": True}
+    if rng.random() < 0.3:
+        # a history on ONE object: rewire() is called again, on the unchanged network or on the rewired one
+        ch2, ra2 = rand_scripts(rng, rng.choice([40, 150]), rng.choice([3, 20]))
+        case["second"] = {"choices": ch2, "randoms": ra2, "relink": rng.random() < 0.6}
+    return case
 
 
 def adaptive_choices(rng, net, tg, sl, cl, ch, ra):
@@ -974,6 +1078,8 @@ def histogram(cases):
             h["default_limits"] += 1
         if c["kind"] == "run" and not c.get("every_draw", True):
             h["long_runs"] += 1
+        if c.get("second"):
+            h["two_calls_on_one_object"] = h.get("two_calls_on_one_object", 0) + 1
         h["max_vertices"] = max(h["max_vertices"], len(c["net"]["jds"]))
         for k in ("4-cycle", "d-outer"):
             if k in c["net"]["names"] and any(c["net"]["names"][e[2]] == k for e in c["net"]["edges"]):
